@@ -3,7 +3,7 @@ CONSTANT Types4 = {"qst", "povmt", "qpt"}
 CONSTANT StateSets = {"S4"}
 CONSTANT PovmSets = {"P3"}
 CONSTANT SchedVariants = {"all"}
-CONSTANT Ms = {2}
+CONSTANT Ms = {2, 3}
 CONSTANT NLists = 2
 CONSTANT Emit = TRUE
 INVARIANT CovAndMseEmpiExact
